@@ -60,10 +60,10 @@ def _fa_oracle(args, obs):
 def c20_fa(t: T9, m: int, starts: int, finals: int, l0: int, l1: int, s0: int, s1: int) -> bool:
     """
     pre: pinned(m=m, starts=starts, finals=finals, l0=l0, l1=l1, s0=s0, s1=s1)
-    pre: 0 <= m <= 3 and 0 <= starts < 4 and 0 <= finals < 4
+    pre: ((0 <= m) & (m <= 3)) & ((0 <= starts) & (starts < 4)) & ((0 <= finals) & (finals < 4))
     pre: THOROUGH or ((s0 == 0 or s0 == 8) and (s1 == 2 or s1 == 3 or s1 == 4 or s1 == 9))
-    pre: 0 <= l0 < NSTATE and 0 <= l1 < NSTATE and l0 != l1 and 0 <= s0 < NSYM and 0 <= s1 < NSYM and s0 != s1
-    pre: all(0 <= t[3 * i] < 2 and 0 <= t[3 * i + 1] <= 2 and 0 <= t[3 * i + 2] < 2 for i in range(3))
+    pre: ((0 <= l0) & (l0 < NSTATE)) & ((0 <= l1) & (l1 < NSTATE)) & (l0 != l1) & ((0 <= s0) & (s0 < NSYM)) & ((0 <= s1) & (s1 < NSYM)) & (s0 != s1)
+    pre: enc.sparse_ranges(t, 2, 2)
     pre: sparse_canonical(t, m)
     post: _
     """
@@ -124,7 +124,7 @@ def _pda_oracle(args, obs):
 def c20_pda(t: T10, m: int, finals: int, sl: int, kl: int, il: int) -> bool:
     """
     pre: pinned(m=m, finals=finals, sl=sl, kl=kl, il=il, f0=t[0], c0=t[4])
-    pre: 0 <= m <= 2 and 0 <= finals < 4 and 0 <= sl < 5 and 0 <= kl < 4 and 0 <= il < 3
+    pre: ((0 <= m) & (m <= 2)) & ((0 <= finals) & (finals < 4)) & ((0 <= sl) & (sl < 5)) & ((0 <= kl) & (kl < 4)) & ((0 <= il) & (il < 3))
     pre: pda_canonical(t, m, 2, 2)
     pre: THOROUGH or m < 2 or ((t[5] == t[0]) & (t[6] == t[1]))
     post: _
@@ -195,7 +195,7 @@ def _text_oracle(args, obs):
 def c20_text(v0: int, v1: int, t0: int, t1: int, shape: int) -> bool:
     """
     pre: pinned(v0=v0, v1=v1, shape=shape)
-    pre: 0 <= v0 < NNAMES and 0 <= v1 < NNAMES and v0 != v1 and 0 <= t0 < NNAMES and 0 <= t1 < NNAMES and t0 != t1
+    pre: ((0 <= v0) & (v0 < NNAMES)) & ((0 <= v1) & (v1 < NNAMES)) & (v0 != v1) & ((0 <= t0) & (t0 < NNAMES)) & ((0 <= t1) & (t1 < NNAMES)) & (t0 != t1)
     pre: 0 <= shape < 4
     post: _
     """
@@ -293,9 +293,9 @@ def boxes_plain(rsa):
 def c20_rsa(b0: Tuple[int, int, int], n0: int, b1: Tuple[int, int, int], n1: int, h1: int, nlines: int) -> bool:
     """
     pre: pinned(n0=n0, n1=n1, h1=h1, nlines=nlines, x0=b0[0])
-    pre: 0 <= n0 <= 3 and 0 <= n1 <= 3 and 0 <= h1 < 2 and 1 <= nlines <= 2
-    pre: all(0 <= b0[i] < NBT and (i < n0 or b0[i] == 0) for i in range(3))
-    pre: all(0 <= b1[i] < NBT and (i < n1 or b1[i] == 0) for i in range(3))
+    pre: ((0 <= n0) & (n0 <= 3)) & ((0 <= n1) & (n1 <= 3)) & ((0 <= h1) & (h1 < 2)) & ((1 <= nlines) & (nlines <= 2))
+    pre: enc.word_ranges(b0, n0, NBT)
+    pre: enc.word_ranges(b1, n1, NBT)
     pre: nlines == 2 or (n1 == 0 and h1 == 0)
     post: _
     """
